@@ -12,6 +12,18 @@ def pure(ctx, rule, qn, ps, ignore=()):
     for p in ps:
         from ..lib import self_chain
         ws = [w for w in heap_writes(p) if not (w.loc[0] == 'sub' and w.loc[1][0] == 'attr' and self_chain(w.loc[1]) is not None and w.loc[1][2] in ignore)]
+        if ws:
+            from ..lib import validated_against_question
+            flds = {w.loc[1][2] if w.loc[0] == 'sub' else w.loc[2] for w in ws if (w.loc[1] if w.loc[0] == 'sub' else w.loc)[0] == 'attr'}
+            try:
+                checked = validated_against_question(ctx.M, ctx.fn(qn), flds)
+            except Exception:
+                checked = False
+            if checked:
+                # state whose use is checked against the question (a memo validated on a hit, a cursor rewound when time steps back): its presence is not the defect
+                ctx.undecided(rule, '%s keeps no state between calls' % qn, ws[0].site, 'keeps %s, and compares what it kept with the question before using it: whether that check '
+                              'is sufficient is not decided here' % ', '.join(sorted('self.' + f_ for f_ in flds))[:160])
+                return
         ctx.require(not ws, rule, '%s keeps no state between calls' % qn, ws[0].site if ws else None, [fmt(w.loc) for w in ws][:3], key='%s|%s|stateless' % (rule, qn))
 
 
@@ -228,5 +240,6 @@ def s2_s3(ctx):
         alts = []
         for cnt in (('call', ('ext', 'LEN'), (it,), ()), ('call', ('ext', 'LEN'), (V('initial_weights'),), ()), ('call', ('ext', 'LEN'), (('call', ('meth', 'keys'), (V('initial_weights'),), ()),), ())):
             alts.append(T.t_div(A('self', 'scale'), cnt))
+            alts.append(T.t_div(A('self', 'scale'), ('call', ('ext', 'LEN'), (('call', ('ext', 'LIST'), (cnt[2][0],), ()),), ())))
         ctx.require(any(T.teq(w, a) for a in alts), 'C19.S3', 'each weight = scale / number of assets given', fn.site(), fmt(w), key='C19.S3|equal-weight')
     ctx.sub(pure, 'C19.S3', qn, ps, eq_memos)
